@@ -29,9 +29,11 @@ PROPERTY = "C07"
 LEVEL = "model_checking"
 RULE = ("states = operation histories (no merging: a state is its history) of length 0..D (D=3 quick, 4 thorough; histories of length D start with a load or reload) over 25 operations; "
         "transitions = (history, observation) pairs, every one executed on the real code in a process forked from the state the history reached; "
-        "reference = the same observation in a fresh process after only the most recent load")
+        "reference = the same observation in a fresh process after only the most recent load; two of the operations are whole in-process `tally up` runs "
+        "on a .rules budget and a legacy-CSV budget (observed after every history shorter than D; library observations made after such a run and before "
+        "the next explicit load are not judged, because the run loads rules of its own)")
 ASSUMPTIONS = ["a process forked from the harness worker (tally imported, nothing loaded or evaluated) is the 'fresh process' reference",
-               "two rule files per format, 5 transactions, 4 expressions; depth bound as stated"]
+               "two rule files per format, 5 transactions, 8 expressions, two budgets; depth bound as stated"]
 
 A_RULES = '''is_big = amount > 100
 is_wire = field.type == "WIRE"
